@@ -208,7 +208,7 @@ DtExpect(l) == IF ValidDate(l.y, l.m, l.d) /\ ValidTod(l) THEN "accept" ELSE "re
 
 ---------------------------------------------------------------------------
 (* B.1.2.2 character strings: items <<spelling, denoted character (by name)>> *)
-Plain == { <<"a", "a">>, <<" ", "SP">>, <<"Z", "Z">>, <<"0", "0">>, <<"é", "é">>, <<"€", "€">>, <<"(*", "(*">>, <<";", ";">> }
+Plain == { <<"a", "a">>, <<" ", "SP">>, <<" ", "NBSP">>, <<"Z", "Z">>, <<"0", "0">>, <<"é", "é">>, <<"€", "€">>, <<"(*", "(*">>, <<";", ";">> }
 Escapes == { <<"$$", "$">>, <<"$L", "LF">>, <<"$N", "LF">>, <<"$P", "FF">>, <<"$R", "CR">>, <<"$T", "TAB">>, <<"$41", "A">>, <<"$l", "LF">> }
 StrItems1 == Plain \cup Escapes \cup { <<"\"", "\"">>, <<"$'", "'">> }       \* in '...'
 StrItems2 == Plain \cup Escapes \cup { <<"'", "'">>, <<"$\"", "\"">> }       \* in "..."
